@@ -39,7 +39,7 @@ type cfCase struct {
 	} `json:"mesh"`
 	Var    string `json:"var"`
 	NLines int    `json:"nlines"`
-	Fault struct {
+	Fault  struct {
 		Kind string `json:"kind"`
 		K    int    `json:"k"`
 		J    int    `json:"j"`
